@@ -28,6 +28,17 @@ Example new_model_witness :
   merge_level (fun _ => true) w_cats [] w_keys = RErr EConflict [w_x].
 Proof. vm_compute. reflexivity. Qed.
 
+(** before fixes/C09-plural-base-key-not-identifier.diff: `in_one` + `in_other` panicked; now a descriptive error *)
+Definition w_in : str := [105; 110].
+Definition w_in_keys : list (str * ival) :=
+  [([105; 110; 95; 111; 110; 101], Leaf 1); ([105; 110; 95; 111; 116; 104; 101; 114], Leaf 2)].
+Definition w_is_key (b : str) : bool := negb (str_eqb b w_in).
+Lemma panic_old_refuted :
+  merge_level_panic_old w_is_key w_cats [] w_in_keys = RPanic /\
+  spec_C05 w_is_key w_cats [] w_in_keys (merge_level_panic_old w_is_key w_cats [] w_in_keys) = false /\
+  merge_level w_is_key w_cats [] w_in_keys = RErr EInvalid [w_in].
+Proof. repeat split; vm_compute; reflexivity. Qed.
+
 (** known finding "lone-other": en writes x_one + x_other, ja writes only x_other; ja is not merged *)
 Definition w_en : list (str * ival) := [(w_x_one, Leaf 1); (w_x_other, Leaf 2)].
 Definition w_ja : list (str * ival) := [(w_x_other, Leaf 3)].
@@ -741,12 +752,12 @@ Proof. induction p as [|x r IH]; cbn [path_eqb]; [reflexivity|]. rewrite str_eqb
 
 (** * The second loop, globally *)
 
-Lemma group_panic : forall is_key cats path b g rest keys ws,
-  group_mergeable g = true -> is_key b = false -> loop2 is_key cats path ((b, g) :: rest) keys ws = RPanic.
+Lemma group_invalid : forall is_key cats path b g rest keys ws,
+  group_mergeable g = true -> is_key b = false -> loop2 is_key cats path ((b, g) :: rest) keys ws = RErr EInvalid [b].
 Proof.
   intros is_key cats path b g rest keys ws Hm Hk. cbn [loop2]. unfold group_mergeable in Hm.
   apply andb_true_iff in Hm. destruct Hm as [Hlen Hoth]. apply negb_true_iff in Hlen. rewrite Hlen, Hoth. cbn [negb orb].
-  destruct (remove_first_other g) as [[o others]|]; [|reflexivity]. rewrite Hk. reflexivity.
+  destruct (remove_first_other_some g Hoth) as [o [others Hr]]. rewrite Hr, Hk. reflexivity.
 Qed.
 
 Section Global.
@@ -928,14 +939,15 @@ Section Global2.
     | ROk out ws' => LInv is_key ks (pre ++ gs) out /\ ws' = ws ++ flat_map group_warns gs
     | RErr EConflict p => exists b, p = path ++ [b] /\ mergeable ks b = true /\ mixed ks b = true
     | RErr ECollide p => exists b, p = path ++ [b] /\ mergeable ks b = true /\ collides ks b = true
-    | RPanic => exists b, mergeable ks b = true /\ is_key b = false
+    | RErr EInvalid p => exists b, p = [b] /\ mergeable ks b = true /\ is_key b = false
+    | RPanic => False
     end.
 
   Lemma outcome_shift : forall pre b g rest ws ws1 r,
     ws1 = ws ++ group_warns (b, g) ->
     outcome (pre ++ [(b, g)]) rest ws1 r -> outcome pre ((b, g) :: rest) ws r.
   Proof.
-    intros pre b g rest ws ws1 r Hw H. destruct r as [out ws'|[|] p|]; cbn [outcome] in *; try exact H.
+    intros pre b g rest ws ws1 r Hw H. destruct r as [out ws'|[| |] p|]; cbn [outcome] in *; try exact H.
     destruct H as [Hinv Hws]. rewrite <- app_assoc in Hinv. cbn [app] in Hinv. split; [exact Hinv|].
     cbn [flat_map]. rewrite Hws, Hw, <- app_assoc. reflexivity.
   Qed.
@@ -955,7 +967,7 @@ Section Global2.
       destruct (group_mergeable g) eqn:Hgm.
       + assert (Hm : mergeable ks b = true) by (rewrite <- grp_mergeable, <- Hg; exact Hgm).
         destruct (is_key b) eqn:Hik.
-        2: { rewrite (group_panic is_key cats path b g rest keys ws Hgm Hik). cbn [outcome]. exists b. auto. }
+        2: { rewrite (group_invalid is_key cats path b g rest keys ws Hgm Hik). cbn [outcome]. exists b. auto. }
         destruct (mixed ks b) eqn:Hmx.
         * destruct (mixed_witness b Hmx) as [m1 [m2 [H1 [H2 Hne]]]]. rewrite <- Hg in H1, H2.
           rewrite (group_conflict is_key cats path b g rest keys ws m1 m2 Hgm Hik H1 H2 Hne).
@@ -1240,7 +1252,7 @@ Theorem spec_C05_holds : forall is_key cats path ks, NoDup (map fst ks) ->
   spec_C05 is_key cats path ks (merge_level is_key cats path ks) = true.
 Proof.
   intros is_key cats path ks Hnd. pose proof (merge_level_outcome is_key cats path ks Hnd) as H.
-  destruct (merge_level is_key cats path ks) as [out ws|[|] p|]; cbn [outcome app] in H.
+  destruct (merge_level is_key cats path ks) as [out ws|[| |] p|]; cbn [outcome app] in H.
   - destruct H as [Hinv Hws]. subst ws. unfold spec_C05.
     assert (HbG : forall b, mergeable ks b = true -> In b (map fst (groups_of ks))).
     { intros b Hm. apply groups_bases. apply mergeable_members. exact Hm. }
@@ -1263,8 +1275,8 @@ Proof.
     + apply incl_b_of_In. intros w Hw. apply (warns_complete is_key cats path ks out w Hinv Hw).
   - destruct H as [b [-> [Hm Hmx]]]. unfold spec_C05. rewrite split_last_snoc, path_eqb_refl, Hm, Hmx. reflexivity.
   - destruct H as [b [-> [Hm Hco]]]. unfold spec_C05. rewrite split_last_snoc, path_eqb_refl, Hm, Hco. reflexivity.
-  - destruct H as [b [Hm Hk]]. unfold spec_C05. apply existsb_exists. exists b. split; [apply in_merged_bases; exact Hm|].
-    rewrite Hk. reflexivity.
+  - destruct H as [b [-> [Hm Hk]]]. unfold spec_C05. rewrite Hm, Hk. reflexivity.
+  - destruct H.
 Qed.
 
 (** * Property-level corollaries *)
@@ -1324,26 +1336,30 @@ Proof.
 Qed.
 
 Lemma conflicts_level : forall is_key cats path ks, NoDup (map fst ks) ->
-  (forall b, mergeable ks b = true -> is_key b = true) ->
-  ((exists b, mergeable ks b = true /\ (mixed ks b = true \/ collides ks b = true)) <->
+  ((exists b, mergeable ks b = true /\ (is_key b = false \/ mixed ks b = true \/ collides ks b = true)) <->
    (exists k p, merge_level is_key cats path ks = RErr k p)) /\
   (forall k p, merge_level is_key cats path ks = RErr k p ->
-     exists b, p = path ++ [b] /\ mergeable ks b = true /\
-               match k with EConflict => mixed ks b = true | ECollide => collides ks b = true end).
+     exists b, mergeable ks b = true /\
+               match k with
+               | EConflict => p = path ++ [b] /\ mixed ks b = true
+               | ECollide => p = path ++ [b] /\ collides ks b = true
+               | EInvalid => p = [b] /\ is_key b = false
+               end) /\
+  merge_level is_key cats path ks <> RPanic.
 Proof.
-  intros is_key cats path ks Hnd Hkeys. pose proof (merge_level_outcome is_key cats path ks Hnd) as H.
+  intros is_key cats path ks Hnd. pose proof (merge_level_outcome is_key cats path ks Hnd) as H.
   destruct (merge_level is_key cats path ks) as [out ws|k p|] eqn:Hr; cbn [outcome app] in H.
-  - destruct H as [Hinv _]. split.
+  - destruct H as [Hinv _]. split; [|split; [|discriminate]].
     + split.
       * intros [b [Hm Hbad]]. exfalso.
         assert (HbG : In b (map fst (groups_of ks))) by (apply groups_bases; apply mergeable_members; exact Hm).
-        destruct (li_plural _ _ _ _ Hinv b HbG Hm) as [Hmx [Hco _]]. destruct Hbad; congruence.
+        destruct (li_plural _ _ _ _ Hinv b HbG Hm) as [Hmx [Hco [Hik _]]]. destruct Hbad as [A | [A | A]]; congruence.
       * intros [k [p Hk]]. discriminate.
     + intros k p Hk. discriminate.
-  - split.
+  - split; [|split; [|discriminate]].
     + split; [intros _; eauto|]. intros _. destruct k; destruct H as [b [_ [Hm Hbad]]]; exists b; auto.
     + intros k' p' Hk. inversion Hk; subst k' p'. destruct k; destruct H as [b [Hp [Hm Hbad]]]; exists b; auto.
-  - destruct H as [b [Hm Hk]]. rewrite (Hkeys b Hm) in Hk. discriminate.
+  - destruct H.
 Qed.
 
 Lemma unused_level : forall is_key cats path ks out ws, NoDup (map fst ks) ->
